@@ -157,7 +157,8 @@ impl<'t, 'b> G<'t, 'b> {
             let mut recursive = false;
             for d in 0..nd {
                 let name = format!(".d{i}{}", (b'a' + d as u8) as char);
-                let np = self.t.below(3);
+                // up to four parameters: clauses with three or more value patterns exercise the argument tuple
+                let np = [0usize, 1, 2, 0, 1, 2, 3, 4][self.t.below(8)];
                 let params: Vec<VTy> = (0..np).map(|_| self.simple_vty(self.datas.len())).collect();
                 let result = match self.t.below(6) {
                     | 0 | 1 | 2 => CTy::Ret(Box::new(self.simple_vty(self.datas.len()))),
@@ -290,9 +291,18 @@ impl<'t, 'b> G<'t, 'b> {
             | VTy::Char => Val::Char(*self.t.pick(CHARS)),
             | VTy::Unit => Val::Unit,
             | VTy::Prod(items) => {
+                let n = items.len();
+                if n >= 3 && depth > 0 && self.t.chance(90) {
+                    // a tail of product type (a variable bound to a tuple, or a nested literal): the
+                    // language splices it into the spine, so `(a, t)` with `t : B * C` has type `A * B * C`
+                    self.feat("product-tail");
+                    let k = 1 + self.t.below(n - 2);
+                    let mut vals: Vec<Val> = items[..k].iter().map(|i| self.gen_val(i, depth - 1)).collect();
+                    let tail_ty = prod(items[k..].to_vec());
+                    vals.push(self.gen_val(&tail_ty, depth - 1));
+                    return Val::Tuple(vals);
+                }
                 let vals: Vec<Val> = items.iter().map(|i| self.gen_val(i, depth.saturating_sub(1))).collect();
-                // a variable of product type in last position would be flattened into the spine by the
-                // language; keep generated tuples canonical by never ending in a product-typed variable
                 Val::Tuple(vals)
             }
             | VTy::Data(d) => {
@@ -969,7 +979,8 @@ impl<'t, 'b> G<'t, 'b> {
             // define a reusable thunk, then continue
             | _ => {
                 self.feat("let-thunk");
-                let b = self.gen_cty(2);
+                let cty_depth = 2 + self.t.below(3);
+                let b = self.gen_cty(cty_depth);
                 let a = VTy::Thk(Box::new(b.clone()));
                 let fixed = if self.cfg.mo { None } else { self.gen_fix(&b, depth) };
                 let body = match fixed {
@@ -1109,14 +1120,32 @@ pub fn gen_program(tape: &[u8], cfg: &Cfg) -> (Program, BTreeMap<&'static str, u
 /// A program whose main starts with `k` value/thunk definitions (each may use the earlier ones)
 /// followed by an OS body: the definitions are printed as `that` contributions of one block.
 pub fn gen_block_program(tape: &[u8], cfg: &Cfg) -> (Program, usize, BTreeMap<&'static str, u32>) {
+    let (p, k, _, f) = gen_param_block_program(tape, cfg, false);
+    (p, k, f)
+}
+
+/// As `gen_block_program`; with `with_params`, some definitions are generated *closed* (their value
+/// mentions no other definition of the block) and flagged: they can be printed as `param (x : T) that`
+/// with the value passed as the block's argument.
+pub fn gen_param_block_program(tape: &[u8], cfg: &Cfg, with_params: bool) -> (Program, usize, Vec<bool>, BTreeMap<&'static str, u32>) {
     let mut t = Tape::new(tape);
     let mut g = G::new(&mut t, cfg.clone());
     g.gen_decls();
     let k = 2 + g.t.below(5);
     let mut defs: Vec<(Bid, VTy, Val)> = vec![];
+    let mut params = vec![];
     for _ in 0..k {
-        let a = if g.t.chance(90) { VTy::Thk(Box::new(g.gen_cty(2))) } else { g.gen_vty(2) };
-        let v = g.gen_val(&a, 3);
+        let is_param = with_params && g.t.chance(120);
+        let a = if g.t.chance(90) && !is_param { VTy::Thk(Box::new(g.gen_cty(2))) } else { g.gen_vty(2) };
+        let v = if is_param {
+            let saved = std::mem::take(&mut g.scope);
+            let v = g.gen_val(&a, 3);
+            g.scope = saved;
+            v
+        } else {
+            g.gen_val(&a, 3)
+        };
+        params.push(is_param);
         let b = g.bid();
         g.scope.push((b, a.clone()));
         defs.push((b, a, v));
@@ -1134,5 +1163,5 @@ pub fn gen_block_program(tape: &[u8], cfg: &Cfg) -> (Program, usize, BTreeMap<&'
         main = Comp::Let(Pat::Var(b), a, v, Box::new(main));
     }
     let feats = g.feats.clone();
-    (g.finish(main), k, feats)
+    (g.finish(main), k, params, feats)
 }
